@@ -60,6 +60,8 @@ def _make_array(recipe):
         idx = rs.permutation(n)[:k]
         if recipe.get("sorted"):
             idx = np.sort(idx)
+        if recipe.get("negative"):
+            idx = idx - n  # the same positions, counted from the end
         return idx.astype(np.int64)
     if kind == "weights":
         rs = np.random.RandomState(recipe["seed"] & 0x7FFFFFFF)
